@@ -1,11 +1,16 @@
 """C05 — every reported position points at the text it is about."""
-from .. import core, gen_text, lexcheck
+import re
+from .. import core, gen_text, lexcheck, refgrammar, units
 from ..streams import run_stream
 
-RULE = ('sources = fixtures of /repo + generated lexeme soups (keywords in random case, identifiers, numbers, strings, '
+RULE = ('(1) token stream: sources = fixtures of /repo + generated lexeme soups (keywords in random case, identifiers, numbers, strings, '
         'single/multi-line comments, CRLF, non-ASCII in comments and strings, OSCAT headers, lexical errors, unclosed '
         'openers); each is lexed by the Lean model and by tokenize_program; a case is non-trivial when it has >= 3 lexemes; '
-        'distinct = distinct (feature set, length bucket)')
+        'distinct = distinct (feature set, length bucket); (2) identifiers: every Id a dsl Visitor reaches in libraries parsed from the reference '
+        'grammar (canonical and with non-ASCII comments / CRLF in the gaps) and from the fixtures carries the byte span of its own spelling and the file id, '
+        'only elementary type names may be spanless; (3) diagnostic labels: for every single-fault unit of C02 in 1-3 files each label lies in a file of '
+        'the set, is non-empty, starts and ends on lexeme boundaries, covers the marker name of the planted fault, and for duplicate names the primary '
+        'label is the later declaration and the secondary the first')
 
 
 def lex_cases(ctx):
@@ -33,12 +38,132 @@ def judge_lex(ctx, case, m, i):
     return corr, lexcheck.token_oracle(case['text'], toks, errs)
 
 
+MARKER_LABEL = {'undefined-var-rhs': 7996, 'undefined-var-target': 7995, 'task-undefined': 7999, 'enum-value-undefined': 7998,
+                'call-instance-undeclared': 7994, 'call-formal-unknown': 7993}
+ELEMENTARY = {'BOOL', 'SINT', 'INT', 'DINT', 'LINT', 'USINT', 'UINT', 'UDINT', 'ULINT', 'REAL', 'LREAL', 'TIME', 'DATE', 'TIME_OF_DAY', 'TOD', 'DATE_AND_TIME', 'DT',
+              'STRING', 'WSTRING', 'BYTE', 'WORD', 'DWORD', 'LWORD'}
+
+
+def id_spans(ctx):
+    """every identifier of a parsed library carries the span of its own spelling and the file id"""
+    from .c08 import respell
+    rng = ctx.rng
+    kws = [l for (v, l, ic) in gen_text.token_literals()]
+    refgrammar.Gen.OPS = refgrammar.ops_from_table(core.REPO)
+    texts = []
+    for i in range(80 if ctx.quick() else 3000):
+        g = refgrammar.Gen(rng, kws)
+        lex, lib = g.library(rng.choice([1, 2]))
+        # non-ASCII comments and CRLF in the gaps shift byte offsets away from character offsets
+        texts.append(respell(rng, lex, {'trivia', 'id'}) if i % 2 else refgrammar.spell(lex))
+    for name, t in gen_text.fixture_texts(): texts.append(t)
+    out = core.run_lines(core.VH, ['ids ' + core.hexs(t) for t in texts], jobs=12)
+    for t, o in zip(texts, out):
+        ctx.evaluations += 1
+        if not o.startswith('OK'):
+            ctx.count('ids:' + o.split(' ')[0].split('@')[0]); continue
+        raw = t.encode('utf-8')
+        n_span = 0
+        for w in o.split(' ')[1:]:
+            if not w: continue
+            h, sp, f = w.split('@')
+            name = bytes.fromhex(h).decode('utf-8', 'replace')
+            a, b = map(int, sp.split('-'))
+            bad = None
+            if (a, b) == (0, 0):
+                if name.upper() not in ELEMENTARY and name != '':
+                    bad = f'the identifier `{name}` of the parsed library has no span'
+            else:
+                n_span += 1
+                got = raw[a:b].decode('utf-8', 'replace') if 0 <= a <= b <= len(raw) else None
+                if got != name: bad = f'the identifier `{name}` carries the span {a}-{b} whose text is `{got}`'
+                elif f != 'f.st': bad = f'the identifier `{name}` carries the file id `{f}` instead of the file it was read from'
+            if bad:
+                ctx.violations.append({'stream': 'ids', 'case': {'text': t}, 'impl': w, 'model': None, 'what': bad})
+                break
+        ctx.count('ids:libraries')
+        ctx.hist['ids:identifiers-with-span'] = ctx.hist.get('ids:identifiers-with-span', 0) + n_span
+        if n_span >= 3 and any(ord(c) > 127 for c in t): ctx.feature(('ids', 'nonascii', min(n_span // 10, 9)))
+        elif n_span >= 3: ctx.feature(('ids', min(n_span // 5, 20)))
+
+
+def diag_labels(ctx):
+    """every label of a diagnostic lies in the file it names, covers whole lexemes, and (where the fault carries a marker
+    name / is a duplicate) covers the spelling of the construct the message is about"""
+    rng = ctx.rng
+    cases = []
+    for trial in range(15 if ctx.quick() else 300):
+        base, ns = units.gen_valid(rng, size=rng.choice([1, 1, 2]))
+        for (fk, code, ds) in units.plant_all(base, ns, rng):
+            nf = rng.choice([1, 1, 2, 3])
+            files = units.split_files(rng, ds, nf) if nf > 1 else [list(ds)]
+            cases.append({'fault': fk, 'code': code, 'texts': [units.print_file(f, rng) for f in files]})
+    if ctx.quick() and len(cases) > 500: cases = rng.sample(cases, 500)
+    out = core.run_lines(core.VH, ['project ' + ' '.join(core.hexs(t) if t else '-' for t in c['texts']) for c in cases], jobs=12)
+    lexed = {}
+    def token_bounds(text):
+        if text not in lexed:
+            o = core.run_lines(core.VH, ['lex ' + core.hexs(text)])[0]
+            p = lexcheck.parse_lex(o)
+            lexed[text] = ({tk[1] for tk in p[0]}, {tk[2] for tk in p[0]}) if p else (set(), set())
+        return lexed[text]
+    for c, o in zip(cases, out):
+        ctx.evaluations += 1
+        if not o.startswith('ERR'): continue
+        for d in o.split(' ')[1:]:
+            if d.startswith('PARSE') or '@' not in d: continue
+            code, rest = d.split('@', 1)
+            rest = rest.split('!')[0]
+            labels = []
+            for lab in rest.split('+'):
+                m = re.match(r'^f(\d+)\.st:(\d+)-(\d+)$', lab)
+                if not m:
+                    labels.append((None, lab)); continue
+                labels.append((int(m.group(1)), int(m.group(2)), int(m.group(3))))
+            show = {'fault': c['fault'], 'texts': c['texts'], 'diagnostic': d}
+            slices = []
+            for li, lab in enumerate(labels):
+                bad = None
+                if lab[0] is None:
+                    if code not in ('P0030', 'P9999'): bad = f'a label of {code} names no file of the set: {lab[1]}'
+                    slices.append(None)
+                else:
+                    fi, a, b = lab
+                    if fi >= len(c['texts']):
+                        bad = f'a label of {code} names file f{fi}.st which is not in the set'
+                    else:
+                        raw = c['texts'][fi].encode('utf-8')
+                        starts, ends = token_bounds(c['texts'][fi])
+                        if not (0 <= a < b <= len(raw)): bad = f'a label of {code} ({a}-{b}) lies outside file f{fi}.st ({len(raw)} bytes) or is empty'
+                        elif a not in starts or b not in ends: bad = f'a label of {code} ({a}-{b}: `{raw[a:b].decode("utf-8", "replace")}`) does not start and end on lexeme boundaries'
+                        slices.append(None if bad else (fi, a, raw[a:b].decode('utf-8', 'replace')))
+                if bad:
+                    ctx.violations.append({'stream': 'labels', 'case': show, 'impl': d, 'model': None, 'what': bad}); break
+            else:
+                ctx.count('labels:' + code)
+                ctx.feature(('labels', code, c['fault'], len(labels)))
+                if code != c['code'] or not slices or slices[0] is None: continue
+                marker = MARKER_LABEL.get(c['fault'])
+                if marker is not None and units.nm(marker).upper() not in re.split(r'[^A-Za-z0-9_]+', slices[0][2].upper()):
+                    ctx.violations.append({'stream': 'labels', 'case': show, 'impl': d, 'model': None,
+                                           'what': f'the {code} diagnostic about the name {units.nm(marker)} labels the text `{slices[0][2]}`, which does not contain it'})
+                if code in ('P0019', 'P0020') and len(slices) >= 2 and slices[1] is not None:
+                    (f1, a1, t1), (f2, a2, t2) = slices[0], slices[1]
+                    if t1.upper() != t2.upper():
+                        ctx.violations.append({'stream': 'labels', 'case': show, 'impl': d, 'model': None, 'what': f'the two labels of a duplicate-name diagnostic cover different names `{t1}` / `{t2}`'})
+                    elif (f1, a1) <= (f2, a2):
+                        ctx.violations.append({'stream': 'labels', 'case': show, 'impl': d, 'model': None,
+                                               'what': f'the duplicate-name diagnostic labels f{f1}.st:{a1} as the duplicate and f{f2}.st:{a2} as the first declaration: the duplicate is not the later one'})
+
+
 def run(ctx):
     core.prepare(ctx)
     cases = lex_cases(ctx)
     run_stream(ctx, 'lex', cases, lambda c: 'lex ' + core.hexs(c['text']), judge_lex,
                nontrivial=lambda c: len(c['text']) >= 3,
                shrink_text=True)
+    id_spans(ctx)
+    diag_labels(ctx)
     return core.finish(ctx, level='proof', rule=RULE,
                        assumptions=['logos error extent is a calibrated parameter of the model (tiling is proved for every policy)',
                                     'a line break is \\n; a column may be counted in bytes, chars or UTF-16 units'])
